@@ -165,3 +165,20 @@ Theorem store_programs_den (V : Type) (veqb : V -> V -> bool) (vzero : V) (srt :
   exists st', exec V veqb vzero srt st p = Some st' /\ R V vzero st' dst'.
 Proof. exact (store_programs_proof V veqb vzero srt). Qed.
 Print Assumptions store_programs_den.
+
+(* (11) _get_expanded_coords_data writes the coordinates along the broadcast axes into an intp matrix
+   from intp aranges (both dtypes regenerated from the source): the model's expansion, exact in Z, is the
+   code's whatever (narrow) index dtype the operand has; and that expansion puts value v at position q of
+   the broadcast shape T exactly when the operand holds v at its pre-image of q, each position once. *)
+Theorem expanded_coords_exact (D : Type) (coords : list idx) (data : list D) (params : list (option bool)) (bsh : shape) :
+  expand_index_exact = true /\
+  expand_coords_data coords data params bsh = expand_coords_data_Z coords data params bsh.
+Proof. split; [reflexivity|exact (expand_coords_data_exact coords data params bsh)]. Qed.
+Print Assumptions expanded_coords_exact.
+
+Theorem expanded_coords_den (D : Type) (s T : shape) (rows : list (idx * D)) :
+  BT s T -> shape_ok T -> Forall (fun r => in_range s (fst r)) rows -> NoDup (map fst rows) ->
+  NoDup (map fst (expand_rows rows (bcast_params s T) T)) /\
+  forall q v, In (q, v) (expand_rows rows (bcast_params s T) T) <-> in_range T q /\ In (bcast_idx s q, v) rows.
+Proof. exact (expand_rows_spec s T rows). Qed.
+Print Assumptions expanded_coords_den.
